@@ -60,6 +60,57 @@ def check_extraction(extractor, inserted, root):
     return True
 
 
+def check_returned_rules(db, rules):
+    """C11 on what RuleDBForest.get_specification_rules returns: every rule is a recorded forward
+    rule or the reverse of one; one rule per class; closed; productive; and a reverse rule (told by
+    its type, not by a bucket label) only if the forward rules recorded so far are not productive
+    for the root on their own."""
+    from comb_spec_searcher.strategies.rule import EquivalenceRule, ReverseRule
+    from vmon import m_ruledb
+
+    sh = m_ruledb.shadow_of(db)
+    if sh.adopted is False or not sh.events:
+        return
+    cx = base.ctx()
+    cx.count("forest.returned_rule_sets_checked")
+    lab = db.classdb.get_label
+    forward = set()
+    for ev in sh.events:
+        r = ev["rule"]
+        forward.add((ev["start"], tuple(ev["ends"]), tuple(r.shifts())))
+    root = db.root_label
+    triples, parents, wit = [], [], {"root": root}
+    reverse_used = 0
+    inserted = {_t(k) for k in m_table.shadow_of_keys(db.table_method)}
+    known_history = m_table.history_known(db.table_method)
+    empties = set()
+    for r in rules:
+        key = r.forest_key(lab, db.classdb.is_empty)
+        t = _t(key)
+        triples.append(t)
+        parents.append(t[0])
+        for c in r.children:
+            if db.classdb.is_empty(c, lab(c)):
+                empties.add(lab(c))  # empty classes get their (nullary) rule lazily, in the specification
+        if isinstance(r, ReverseRule) and not r.is_equivalence():
+            reverse_used += 1
+        src = r.original_rule if isinstance(r, EquivalenceRule) else r  # the form whose key was inserted
+        ti = _t(src.forest_key(lab, db.classdb.is_empty))
+        if known_history and ti not in inserted:
+            cx.violation("C11:returned-rule-never-inserted", f"{type(r).__name__} with key {ti} was never inserted", wit)
+    triples += [(e, (), ()) for e in empties if e not in parents]
+    if len(set(parents)) != len(parents):
+        cx.violation("C11:returned-two-rules-for-one-class", f"parents {sorted(parents)}", wit)
+    if not rlfp.productive_for(triples, root):
+        cx.violation("C11:returned-rules-not-productive", f"{triples}", wit)
+    if reverse_used:
+        cx.count("forest.returned_rule_sets_with_reverse_rule")
+        if rlfp.productive_for(list(forward), root):
+            cx.violation("C11:reverse-rule-returned-needlessly",
+                         f"{reverse_used} reverse rules handed back although the forward rules recorded so far are "
+                         f"productive for the root", wit)
+
+
 def install():
     from comb_spec_searcher.rule_db import forest
 
@@ -98,3 +149,19 @@ def install():
 
     E.__init__ = __init__
     E._find_rule = _find_rule
+
+    # the rule set the forest database hands back, judged as rule *objects* against the forward
+    # rules recorded at `add` (independent of bucket labels and of how the extractor got them)
+    from vmon import m_ruledb
+
+    m_ruledb.install()
+    D = forest.RuleDBForest
+    orig_get = D.get_specification_rules
+
+    def get_specification_rules(self, **kwargs):
+        rules = list(orig_get(self, **kwargs))
+        check_returned_rules(self, rules)
+        return iter(rules)
+
+    D.get_specification_rules = get_specification_rules
+    _INSTALLED["get"] = orig_get
